@@ -34,6 +34,10 @@ pub trait Operand: Sized {
     fn abs_canon(&self) -> Poly {
         abs_poly(&self.canon())
     }
+    /// the SDK's term iterator over this (hostile, un-normalised) operand, if it is a message type
+    fn iter_outcome(&self) -> Option<Result<Outcome, crate::monitor::PanicInfo>> {
+        None
+    }
 }
 
 /// plain number operand
@@ -93,6 +97,9 @@ impl Operand for v1::Parameter {
 }
 
 impl Operand for v1::Linear {
+    fn iter_outcome(&self) -> Option<Result<Outcome, crate::monitor::PanicInfo>> {
+        Some(probe(|| Res::outcome(self)))
+    }
     fn abs_canon(&self) -> Poly {
         abs_stored_poly(&f_linear(self.clone()))
     }
@@ -115,6 +122,9 @@ impl Operand for v1::Linear {
 }
 
 impl Operand for v1::Quadratic {
+    fn iter_outcome(&self) -> Option<Result<Outcome, crate::monitor::PanicInfo>> {
+        Some(probe(|| Res::outcome(self)))
+    }
     fn abs_canon(&self) -> Poly {
         abs_stored_poly(&f_quadratic(self.clone()))
     }
@@ -137,6 +147,9 @@ impl Operand for v1::Quadratic {
 }
 
 impl Operand for v1::Polynomial {
+    fn iter_outcome(&self) -> Option<Result<Outcome, crate::monitor::PanicInfo>> {
+        Some(probe(|| Res::outcome(self)))
+    }
     fn abs_canon(&self) -> Poly {
         abs_stored_poly(&f_polynomial(self.clone()))
     }
@@ -159,6 +172,9 @@ impl Operand for v1::Polynomial {
 }
 
 impl Operand for v1::Function {
+    fn iter_outcome(&self) -> Option<Result<Outcome, crate::monitor::PanicInfo>> {
+        Some(probe(|| Res::outcome(self)))
+    }
     fn abs_canon(&self) -> Poly {
         abs_stored_poly(&self.clone())
     }
@@ -258,6 +274,7 @@ pub struct Exec {
     pub rhs_stored_abs: Q,
     pub lhs_abs: Poly,
     pub rhs_abs: Poly,
+    pub operand_iters: Vec<Option<Result<Outcome, crate::monitor::PanicInfo>>>,
     pub result: Result<Outcome, crate::monitor::PanicInfo>,
 }
 
@@ -299,6 +316,7 @@ macro_rules! bin {
                 rhs_stored_abs: r.stored_abs(),
                 lhs_abs: l.abs_canon(),
                 rhs_abs: r.abs_canon(),
+                operand_iters: vec![l.iter_outcome(), r.iter_outcome()],
                 result,
             }
         }
@@ -331,6 +349,7 @@ macro_rules! un {
                 rhs_stored_abs: Q::zero(),
                 lhs_abs: l.abs_canon(),
                 rhs_abs: Poly::zero(),
+                operand_iters: vec![l.iter_outcome()],
                 result,
             }
         }
@@ -661,6 +680,14 @@ impl Property for C02 {
             mon.nontrivial(ex.fp);
         }
         let ctx = || format!("op={op} lhs({lk})={} rhs({rk})={}", ex.lhs_shown, ex.rhs_shown);
+        // the term iterator of the (un-normalised) operands themselves
+        for it in ex.operand_iters.iter().flatten() {
+            mon.eval();
+            match it {
+                Ok(out) => check_iterator(mon, out, "operand", &ctx),
+                Err(p) => mon.violation(format!("C02.panic:{}", panic_site(p)), format!("term iterator of an operand panicked: {} at {}\n{}", p.message, p.location, ctx())),
+            }
+        }
         match &ex.result {
             Err(p) => mon.violation(
                 format!("C02.panic:{}", panic_site(p)),
